@@ -816,7 +816,9 @@ def use_result(p, b):
     return "s" + ("vmod:" + p).encode().hex() + " i1"
 
 
-def gen_shape_program(sh):
+def gen_shape_program(sh, generic=False):
+    """generic: every call of a Python function is made from the body of a generic function (instances are compiled in a
+    later round than ordinary functions): the law about imports is the same"""
     files = {}
     for p in sorted(sh["pkgs"]):
         uses = [b for b in BINDORDER if b in sh["uses"][p]]
@@ -834,6 +836,9 @@ def gen_shape_program(sh):
             call = {"math": "math.Sqrt(py.Float(16))", "json": "json.Dumps(py.List(1, 2))",
                     "vmod": 'bvmod.Note(py.Str("%s"))' % p, "vmod2": 'bvmod2.Note(py.Str("%s"))' % p}[b]
             extra = {"vmod": ", vx.Enc(bvmod.Count)", "vmod2": ", vx.Enc(bvmod2.Count)"}.get(b, "")
+            if generic:
+                src.append("func gen_%s[T any](x T) *py.Object {\n\t_ = x\n\treturn %s\n}\n" % (b, call))
+                call = "gen_%s[int](0)" % b
             src.append('func use_%s() int {\n\tprintln("U %s %s")\n\tr := %s\n\tprintln("R %s %s", vx.Enc(r)%s)\n\treturn 0\n}\n'
                        % (b, p, b, call, p, b, extra))
         if site == "var":
@@ -980,7 +985,7 @@ def part_imports(chk, thorough, sd):
     # (3) build and run
     def one(ix):
         sh = sel[ix]
-        ok, out, exe = build(chk, "shape%02d" % ix, gen_shape_program(sh))
+        ok, out, exe = build(chk, "shape%02d" % ix, gen_shape_program(sh, generic=(ix % 2 == 1)))
         if not ok:
             return ix, None, out
         st, so, _ = C.run_exe(exe, timeout=120, env=py_env(), merge=True)
@@ -995,7 +1000,7 @@ def part_imports(chk, thorough, sd):
             raise C.Undecided("llgo could not build the program of %s:\n%s" % (key, so[-3000:]))
         ev, problems = parse_shape_trace(so)
         replay = {"shape": {k: sh[k] for k in ("pkgs", "ab", "uses", "site")}, "output": so[-4000:], "events": ev,
-                  "files": gen_shape_program(sh)}
+                  "files": gen_shape_program(sh, generic=(ix % 2 == 1))}
         if st == 0 and ev[-1:] != [["I", "vpk"]]:
             raise C.Undecided("the import hook did not report the canary import of %s: import requests cannot be observed\n%s" % (key, so[-1500:]))
         if st == 0:
@@ -1042,6 +1047,42 @@ def part_impl_model(chk):
             C.log("note: PyImportImpl/%s: %s (layer B drift, not a verdict)" % (cfg, res.violation or "no violation although the import guard is removed"))
 
 
+CONVERT_ONLY = '''package main
+
+import (
+	"github.com/goplus/lib/c"
+	"github.com/goplus/lib/py"
+)
+
+// RoundTrip law of PyBridge on a program that uses nothing of Python but the conversions themselves: no function or
+// variable of a Python module is touched, so the interpreter has to be started for the conversions alone.
+func main() {
+	l := py.List(7, 2.5, "abc", int8(-3))
+	t := py.Tuple(l, uint16(65535))
+	println("CO", "len", l.ListLen(), t.TupleLen())
+	println("CO", "i", int(l.ListItem(0).Long()), int(l.ListItem(3).Long()), int(t.TupleItem(1).Long()))
+	println("CO", "f", l.ListItem(1).Float64() == 2.5)
+	println("CO", "s", c.GoString(l.ListItem(2).CStr()), c.GoString(py.Str("hello").CStr()))
+	println("CO", "same", t.TupleItem(0) == l)
+	println("CO", "end")
+}
+'''
+CONVERT_ONLY_WANT = ["CO len 4 2", "CO i 7 -3 65535", "CO f true", "CO s abc hello", "CO same true", "CO end"]
+
+
+def part_convert_only(chk):
+    ok, out, exe = build(chk, "convonly", {"main.go": CONVERT_ONLY})
+    if not ok:
+        raise C.Undecided("llgo cannot build the conversions-only program:\n" + out[-2000:])
+    st, so, se = C.run_exe(exe, timeout=120, merge=True)
+    got = [ln.strip() for ln in so.splitlines() if ln.startswith("CO ")]
+    chk.cov["evaluations"] += len(CONVERT_ONLY_WANT)
+    if got != CONVERT_ONLY_WANT:
+        chk.reject("convert-only:roundtrip", "a program that only converts values to Python objects and reads them back (no module function "
+                   "or variable used) printed %s (exit status %s), the RoundTrip law says %s" % (got, st, CONVERT_ONLY_WANT),
+                   {"program": CONVERT_ONLY, "got": got, "status": st, "want": CONVERT_ONLY_WANT, "output_tail": so[-800:]})
+
+
 def check(chk):
     thorough = chk.tier == "thorough"
     sd = C.seed()
@@ -1060,10 +1101,11 @@ def check(chk):
         fc = ex.submit(load_cases, chk, thorough, sd)
         fi = ex.submit(part_imports, chk, thorough, sd)
         fb = ex.submit(part_impl_model, chk)
+        fo = ex.submit(part_convert_only, chk)
         cases, counts = fc.result()
         fv = ex.submit(part_values, chk, thorough, sd, cases, counts)
         errs = []
-        for f in (fv, fi, fb):
+        for f in (fv, fi, fb, fo):
             try:
                 f.result()
             except Exception as e:           # let every part finish (and clean up) before the first failure is reported
